@@ -88,6 +88,7 @@ type Options struct {
 	RateBacktick        int // backtick inside a string literal (breaks the generated raw string); default 40
 	RateInvalidDir      int // one deliberately invalid @genqlient placement; default 40
 	RateVarShadow       int // (Adversarial only) a variable named like an imported package; default 10
+	RateFragKeyTwin     int // a fragment named exactly like a (lower-case) field of its type, e.g. `fragment id on User { id … }`: the spread's Go type name equals a sibling response key; default 20 (per fragment)
 	RateInnerCaseTwin   int // a member name that differs from another member of the same type only in the case of a non-first letter (userId / userID); default 40 (per member drawn)
 }
 
@@ -127,6 +128,7 @@ func (o Options) withDefaults() Options {
 	def(&o.RateInvalidDir, 40)
 	def(&o.RateVarShadow, 10)
 	def(&o.RateInnerCaseTwin, 40)
+	def(&o.RateFragKeyTwin, 20)
 	return o
 }
 
